@@ -244,4 +244,13 @@ def start (handler : Check → Option Bool) (c : Config) (nCoordinators : Nat) (
     | some i => { result := .returned 1, started := min (i + 1) nCoordinators }
     | none => { result := .returned 0, started := nCoordinators }
 
+
+/-- `ApplicationContext.ConfigurationValid` after `configureCoordinators` (burrow.go), as a function of the
+    value the context carried in (an embedding application may call `Start` on the context of an earlier
+    run): the deferred handler ASSIGNS false on a panic, the normal path assigns true -/
+def flagAfter (_prior : Bool) (c : Config) : Bool :=
+  match configure c with
+  | some _ => false
+  | none => true
+
 end Burrow.Config
